@@ -65,7 +65,7 @@ were run on each (`tools/refcheck.sh`). A fourth batch (`*-m1..m4`, 80 more) ask
 **maintenance edits** instead of pure refactorings — added logging, counters with
 accessors, defensive checks, small new features whose default keeps today's behaviour,
 constants, micro-optimisations, function splits — i.e. code that *evolves* while the
-property still holds. Result: **{len(refs)} edits, {len(alarmed)} of them
+property still holds. A fifth batch (`*-n1..n4`, 56 more, for the 14 properties whose rules were newest at the time) asked for maintenance edits concentrated on the functions the newest rules look at. Result: **{len(refs)} edits, {len(alarmed)} of them
 initially raised a false alarm** in some property; every alarm was traced to a limitation
 of the machinery and removed (5.2), none by weakening a rule that the breaking witnesses
 need (the full self-test was re-run after each correction) — with {len([r for r in refs if r[1].get('expect')=='alarm'])} documented exception(s)
